@@ -162,18 +162,19 @@ def sliceBytes (s : String) (a b : Nat) : Option String :=
     if !(isBoundary a && isBoundary b) then Option.none
     else String.fromUTF8? (bytes.extract a b)
 
-/-- UCI move token → query, as in `uci.rs` (`filter_map` closure).
-`original = true` is the code as pinned (`&m[0..2]`, `&m[2..4]`, panics);
-outer `none` = panic, inner `none` = token rejected. -/
+/-- UCI move token → query, as in `uci.rs` (`filter_map` closure): `m.get(0..2)?`, `m.get(2..4)?`
+(since the fix of F4; before it `&m[0..2]` panicked on short tokens and non-boundaries).
+outer `none` = panic (kept in the type so that `C14_uci` is a statement, not a tautology),
+inner `none` = token rejected. -/
 def parseUciMoveToken (m : String) : Option (Option MoveQuery) :=
   match sliceBytes m 0 2 with
-  | Option.none => Option.none
+  | Option.none => some Option.none
   | some a =>
     match parseSquare a.toList with
     | Option.none => some Option.none
     | some o =>
       match sliceBytes m 2 4 with
-      | Option.none => Option.none
+      | Option.none => some Option.none
       | some b =>
         match parseSquare b.toList with
         | Option.none => some Option.none
